@@ -881,7 +881,10 @@ titdnApply(Stab stab, AbSyn absyn, TForm type)
 	/* And now the implicit part */
 	if (abImplicit(absyn) != NULL) {
 		AbSyn implicitApply = abImplicit(absyn);
-		TPoss implicitOpTypes = abTPoss(implicitApply);
+		/* The implicit operator may have its unique type already (this
+		 * node is visited again when an enclosing application is
+		 * matched against a multiple-value signature). */
+		TPoss implicitOpTypes = abReferTPoss(implicitApply);
 		isImplicit = true;
 		for (tpossITER(it, implicitOpTypes); tpossMORE(it); tpossSTEP(it)) {
 			TForm	opType = tpossELT(it);
@@ -901,6 +904,7 @@ titdnApply(Stab stab, AbSyn absyn, TForm type)
 				popt = opType;
 			}
 		}
+		tpossFree(implicitOpTypes);
 	}
 
 	if (popc == 1) {
